@@ -51,6 +51,12 @@ def roundtrip(fields, rec=None):
     want = CM.fmt(f)
     if text != want:
         raise Violation("str(ConfigId(%r)) = %r, canonical text is %r" % (fields, text, want))
+    # the derived read-only views of the same values
+    numeric = f["customer"] is not None
+    views = (bool(ident.is_baltech_naming_scheme), bool(ident.is_device_settings), ident.cfgid_str)
+    want_views = (numeric, f["device"] == 0, want[:18] if numeric else None)
+    if views != want_views:
+        raise Violation("ConfigId(%r): (is_baltech_naming_scheme, is_device_settings, cfgid_str) = %r, the values denote %r" % (fields, views, want_views))
     try:
         back = ConfigId.create_from_str(text)
     except Exception as e:
